@@ -412,8 +412,9 @@ class AssociationSocket:
             # Try and connect to remote at (address, port)
             #   raises OSError if connection refused
             self.socket.connect(primitive.address_info.as_tuple)
-            # Clear ae connection timeout
-            self.socket.settimeout(None)
+            # Replace the ae connection timeout with the network timeout so recv()
+            #   can't block forever if the peer stalls part-way through a PDU
+            self.socket.settimeout(self.assoc.network_timeout)
 
             # Update the Association.requestor's host and port with the actual values
             conn_info = self.socket.getsockname()
@@ -755,6 +756,12 @@ class RequestHandler(BaseRequestHandler):
         # Set the thread name
         timestamp = datetime.strftime(datetime.now(), "%Y%m%d%H%M%S")
         assoc.name = f"AcceptorThread@{timestamp}"
+
+        # Sockets returned by accept() don't inherit the listen socket's timeout:
+        #   without one recv() blocks forever if the peer stalls part-way through
+        #   a PDU while keeping the connection open
+        if assoc.network_timeout is not None:
+            self.request.settimeout(assoc.network_timeout)
 
         sock = AssociationSocket(assoc, client_socket=self.request)
         assoc.set_socket(sock)
